@@ -295,7 +295,7 @@ def run(ctx):
         # every sequence of length <= 4, first insertion up to renaming of events: 0-0<=b or 0-1<=b
         prefixes, depth = [[(0, 0, b)] for b in (-2, -1, 0, 1, 2)] + [[(0, 1, b)] for b in (-2, -1, 0, 1, 2)], 3
         scope = "every insertion sequence of length <= 4 over 3 events, bounds -2..2, the first insertion up to renaming of events"
-    tcases, traw = [], []
+    tcases, traw, tdefs = [], [], []
     for p in prefixes:
         if dist["diverged"] >= 2:
             break                                             # every further tree would also wait for the time limit
@@ -312,10 +312,23 @@ def run(ctx):
         dist["tree_nodes"] += sum(len(alphabet) ** k for k in range(depth + 1))
         dist["trees"] += 1
         traw.append({"prefix": p, "depth": depth, "observations": len(codes)})
+        # the expected observations are given in chunks (a single list literal of 10^5 numerals overflows coqc's stack)
+        k = len(tcases)
+        names = []
+        for j in range(0, len(codes), 4000):
+            names.append("exp_%d_%d" % (k, j // 4000))
+            tdefs.append((k, "Definition %s : list Z := %s.\n" % (names[-1], glist([gz(c) for c in codes[j:j + 4000]]))))
         tcases.append("mkt %s %s %s %s %s %s" % (gnat(depth), gnat(FUEL), glist([gn(e) for e in EV3]), glist([g_cstr(c) for c in p]),
-                                                 "alphabet", glist([gz(c) for c in codes])))
+                                                 "alphabet", "(" + " ++ ".join(names) + ")"))
     pre = "Definition alphabet : list cstr := %s.\n" % glist([g_cstr(c) for c in alphabet])
-    bad_t = coq_failing_2(ctx, tcases, "ok_tree", 23 if ctx.quick else 1, imports=IMPORTS, preamble=pre, timeout=1700)
+    if ctx.quick:
+        bad_t = coq_failing_2(ctx, tcases, "ok_tree", 23, imports=IMPORTS, preamble=pre + "".join(d for _, d in tdefs), timeout=1700)
+    else:
+        bad_t = []
+        for k in range(0, len(tcases), 2):     # two trees (two coqc processes) at a time; both files carry the expected lists of the pair
+            sub = [kk for kk in (k, k + 1) if kk < len(tcases)]
+            bad_t += [sub[i] for i in ctx.coq_failing([tcases[kk] for kk in sub], "ok_tree", imports=IMPORTS, shard=1, timeout=1700,
+                                                      preamble=pre + "".join(d for kk, d in tdefs if kk in sub))]
     for i in bad_t:
         v = tree_find_violation(traw[i]["prefix"], alphabet, depth)
         tags = ["c25", "tree", "eps=0"] + ([v["kind"]] if v else [])
